@@ -30,6 +30,10 @@ TXmlLoad ==
   /\ E.load # 0 => /\ E.topo.n = 0 /\ E.battery = 0
                    \* a topology whose load failed can be destroyed (after = 0), or configured and loaded again
                    /\ E.after = 1 => (E.re_set = 0 /\ E.re_load = 0 /\ E.re_n = 2)
+                   \* ... and given a good document it becomes exactly what a fresh topology becomes (objects, sets, stores)
+                   /\ E.two = 1 => /\ E.fresh_set = 0 /\ E.fresh_load = 0 /\ E.re_set = 0 /\ E.re_load = 0
+                                   /\ E.re_topo = E.fresh_topo
+                                   /\ WellFormed(E.re_topo)
   /\ E.pristine = 1 => (E.set = 0 /\ E.load = 0)     \* an unmutated export of hwloc itself must load
 
 TDiffLoad ==
